@@ -19,13 +19,16 @@ import copy
 import hashlib
 import io
 import os
+import pickle
 import shutil
+import subprocess
+import sys
 import time
 from concurrent.futures import ThreadPoolExecutor
 
 import numpy
 
-from .common import REPO, MachineryError, exc_class
+from .common import REPO, VERIF, MachineryError, exc_class
 from . import tlc
 from .encode import dec_enc
 
@@ -1351,6 +1354,170 @@ def check_canaries(answers, expected):
             raise MachineryError(f"spec/PureTrace answered {got} on canary event {i}, expected {exp}")
 
 
+# --------------------------------------------------------------------------- sibling inputs, judged against a fresh process
+def sibling(iso, scale=0.93):
+    """an isotherm of the same shape, with the same first and last pressure in every branch, but other interior pressures and other
+    loadings (memoised intermediate tables keyed by shape / end points would be reused wrongly between the two)"""
+    import pygaps
+    d = iso.data_raw.copy()
+    p = d[iso.pressure_key].to_numpy(dtype=float).copy()
+    l = d[iso.loading_key].to_numpy(dtype=float).copy()
+    br = d["branch"].to_numpy()
+    p2, l2 = p.copy(), l * scale
+    for i in range(1, len(p) - 1):
+        if br[i - 1] == br[i] == br[i + 1] and p[i] > 0 and p[i + 1] > 0:
+            p2[i] = p[i] ** 0.6 * p[i + 1] ** 0.4
+            l2[i] = scale * (0.6 * l[i] + 0.4 * l[i + 1])
+    d[iso.pressure_key] = p2
+    d[iso.loading_key] = l2
+    return pygaps.PointIsotherm(isotherm_data=d, pressure_key=iso.pressure_key, loading_key=iso.loading_key, **iso.to_dict())
+
+
+def pair_scenarios(fx, tier):
+    """(site, variant, build() -> (objects A, objects B), call(objects)); B = siblings of A"""
+    import pygaps
+    import pygaps.characterisation as pgc
+    import pygaps.iast as pgi
+    import pygaps.modelling as pgm
+    SIO2 = "SiO2 Jaroniec/Kruk/Olivier"
+    out = []
+    for key in list(N2_FILES) + list(OTHER_FILES):      # the same registry content in the long-lived and in the fresh process
+        fx.registered(key)
+
+    def single(maker):
+        def b():
+            a = maker()
+            return {"isotherm": a}, {"isotherm": sibling(a)}
+        return b
+
+    def add(site, variant, build, call):
+        out.append((site, variant, build, call))
+    tak = single(lambda: fx.small("tak", 14))
+    add("psd_dft", "tak:user kernel A", tak, lambda o: pgc.psd_dft(o["isotherm"], kernel=fx.kernels()[0]))
+    add("psd_dft", "tak:user kernel B,bspline=0,limits", tak, lambda o: pgc.psd_dft(o["isotherm"], kernel=fx.kernels()[1], bspline_order=0, p_limits=(1e-6, 0.5)))
+    if tier == "thorough":
+        add("psd_dft", "tak:built-in kernel", tak, lambda o: pgc.psd_dft(o["isotherm"], kernel="DFT-N2-77K-carbon-slit"))
+    for m in ("pygaps-DH", "BJH", "DH"):
+        add("psd_mesoporous", f"mcm:{m}", single(lambda: fx.load("mcm")), lambda o, m=m: pgc.psd_mesoporous(o["isotherm"], psd_model=m))
+    add("psd_mesoporous", "mcm:ads,SiO2 standard,KJS", single(lambda: fx.load("mcm")),
+        lambda o: pgc.psd_mesoporous(o["isotherm"], branch="ads", thickness_model=SIO2, kelvin_model="Kelvin-KJS"))
+    for m, g in (("HK", "slit"), ("RY", "slit"), ("HK-CY", "sphere"), ("HK", "cylinder")):
+        add("psd_microporous", f"tak:{m},{g}", single(lambda: fx.small("tak", 18)), lambda o, m=m, g=g: pgc.psd_microporous(o["isotherm"], psd_model=m, pore_geometry=g))
+    add("t_plot", "mcm:Harkins/Jura", single(lambda: fx.load("mcm")), lambda o: pgc.t_plot(o["isotherm"]))
+    add("t_plot", "mcm:SiO2 standard isotherm", single(lambda: fx.load("mcm")), lambda o: pgc.t_plot(o["isotherm"], thickness_model=SIO2))
+
+    def alpha():
+        a, r = fx.load("mcm"), fx.load("sio")
+        return ({"isotherm": a, "reference": pygaps.ModelIsotherm.from_pointisotherm(r, model="BET")},
+                {"isotherm": sibling(a), "reference": pygaps.ModelIsotherm.from_pointisotherm(sibling(r), model="BET")})
+    add("alpha_s", "mcm vs model BET(sio)", alpha, lambda o: pgc.alpha_s(o["isotherm"], o["reference"]))
+
+    def alpha_self():
+        a = fx.load("mcm")
+        return {"isotherm": a, "reference": fx.load("mcm")}, {"isotherm": a, "reference": sibling(a)}
+    add("alpha_s", "mcm vs tabulated reference (itself / sibling)", alpha_self, lambda o: pgc.alpha_s(o["isotherm"], o["reference"], t_limits=(0.7, 1.0)))
+
+    def iso3():
+        a = {f"isotherm{i}": fx.load(k) for i, k in enumerate(("b298", "b323", "b348"))}
+        return a, {r: sibling(x, 0.9) for r, x in a.items()}
+    add("isosteric_enthalpy", "BAX 298/323/348", iso3, lambda o: pgc.isosteric_enthalpy([o["isotherm0"], o["isotherm1"], o["isotherm2"]]))
+    add("isosteric_enthalpy", "BAX,loading points", iso3, lambda o: pgc.isosteric_enthalpy([o["isotherm0"], o["isotherm1"], o["isotherm2"]], loading_points=[1.0, 2.0, 3.0]))
+    add("area_BET", "mcm", single(lambda: fx.load("mcm")), lambda o: pgc.area_BET(o["isotherm"]))
+    add("area_langmuir", "mcm", single(lambda: fx.load("mcm")), lambda o: pgc.area_langmuir(o["isotherm"]))
+    add("dr_plot", "tak", single(lambda: fx.small("tak", 30)), lambda o: pgc.dr_plot(o["isotherm"]))
+    add("da_plot", "tak:exp=None", single(lambda: fx.small("tak", 30)), lambda o: pgc.da_plot(o["isotherm"]))
+    add("initial_henry_slope", "syn", single(fx.syn), lambda o: pgc.initial_henry_slope(o["isotherm"], max_adjrms=0.1))
+    add("initial_henry_virial", "mcm", single(lambda: fx.load("mcm")), lambda o: pgc.initial_henry_virial(o["isotherm"]))
+    add("initial_enthalpy_point", "syn", single(fx.syn), lambda o: pgc.initial_enthalpy_point(o["isotherm"], "enthalpy"))
+    add("enthalpy_sorption_whittaker", "ch4:Toth", single(lambda: fx.load("ch4")), lambda o: pgc.enthalpy_sorption_whittaker(o["isotherm"], model="Toth"))
+    add("model_iso", "ch4:Langmuir", single(lambda: fx.load("ch4")), lambda o: pgm.model_iso(o["isotherm"], model="Langmuir"))
+    add("model_iso", "ch4:[Henry,Toth,Quadratic]", single(lambda: fx.load("ch4")), lambda o: pgm.model_iso(o["isotherm"], model=["Henry", "Toth", "Quadratic"]))
+    add("PointIsotherm.loading_at", "syn:des,cubic / pressure_at / spreading_pressure_at", single(fx.syn),
+        lambda o: [o["isotherm"].loading_at([0.2, 0.33, 0.61], branch="des", interpolation_type="cubic"), o["isotherm"].pressure_at([1.5, 3.3]),
+                   o["isotherm"].spreading_pressure_at(0.61)])
+
+    def two():
+        a = {"isotherm0": fx.load("ch4"), "isotherm1": fx.load("c2h6")}
+        return a, {r: sibling(x, 0.9) for r, x in a.items()}
+
+    def two_models():
+        a, b = two()
+        f = lambda d: {r: pygaps.ModelIsotherm.from_pointisotherm(x, model="Langmuir") for r, x in d.items()}
+        return f(a), f(b)
+    add("iast_point_fraction", "points", two, lambda o: pgi.iast_point_fraction([o["isotherm0"], o["isotherm1"]], [0.5, 0.5], 1.0))
+    add("reverse_iast", "points", two, lambda o: pgi.reverse_iast([o["isotherm0"], o["isotherm1"]], [0.3, 0.7], 1.0))
+    add("iast_binary_vle", "Langmuir models", two_models, lambda o: pgi.iast_binary_vle([o["isotherm0"], o["isotherm1"]], 1.0, npoints=5))
+    add("iast_binary_svp", "points", two, lambda o: pgi.iast_binary_svp([o["isotherm0"], o["isotherm1"]], [0.5, 0.5], [0.5, 1.0, 2.0]))
+    return out
+
+
+def _strip(o):
+    return {"kind": o["kind"], "shape": o["shape"], "text": o["text"], "leaves": [numpy.asarray(x) for x in o["leaves"]]}
+
+
+def child_main(out_path, scratch, tier):
+    """runs in a FRESH process: every sibling scenario in the order B, A (the parent runs A, B); outcomes go back by pickle"""
+    from .common import quiet_pygaps
+    quiet_pygaps()
+    own_material()
+    os.makedirs(scratch, exist_ok=True)
+    fx = Fixtures(scratch)
+    res = {}
+    for i, (site, variant, build, call) in enumerate(pair_scenarios(fx, tier)):
+        a, b = build()
+        res[(i, "B")] = _strip(outcome_of(lambda: call(b)))
+        res[(i, "A")] = _strip(outcome_of(lambda: call(a)))
+    with open(out_path, "wb") as f:
+        pickle.dump(res, f)
+
+
+def start_child(scratch, tier):
+    out = os.path.join(scratch, "child.pickle")
+    code = ("import sys; sys.path.insert(0, %r); import harness.common; from harness import purity; purity.child_main(%r, %r, %r)"
+            % (VERIF, out, os.path.join(scratch, "child"), tier))
+    return subprocess.Popen([sys.executable, "-c", code], stdout=subprocess.PIPE, stderr=subprocess.STDOUT, text=True), out
+
+
+def record_pairs(fx, tier, child, child_out):
+    """parent side: A, B, A, B in this (long-lived) process; 'fresh' = the same call made in the fresh process, where the sibling came first"""
+    recs = []
+    mine = []
+    for i, (site, variant, build, call) in enumerate(pair_scenarios(fx, tier)):
+        a, b = build()
+
+        def snap(objs):
+            s = {r: obs_any(x) for r, x in objs.items()}
+            s["globals"] = obs_globals()
+            return s
+        before = {"A": snap(a), "B": snap(b)}
+        first = {"A": outcome_of(lambda: call(a))}
+        first["B"] = outcome_of(lambda: call(b))
+        after1 = {"A": snap(a), "B": snap(b)}
+        second = {"A": outcome_of(lambda: call(a))}
+        second["B"] = outcome_of(lambda: call(b))
+        after2 = {"A": snap(a), "B": snap(b)}
+        mine.append((i, site, variant, before, after1, after2, first, second))
+    try:
+        log, _ = child.communicate(timeout=600)
+    except subprocess.TimeoutExpired:
+        child.kill()
+        raise MachineryError("purity: the fresh reference process timed out")
+    if child.returncode != 0 or not os.path.exists(child_out):
+        raise MachineryError("purity: the fresh reference process failed:\n" + "\n".join((log or "").splitlines()[-15:]))
+    with open(child_out, "rb") as f:
+        ref = pickle.load(f)
+    for i, site, variant, before, after1, after2, first, second in mine:
+        for w, order in (("A", "run before its sibling here, after it in the fresh process"), ("B", "run after its sibling here, first in the fresh process")):
+            out = {"first": first[w], "second": second[w], "fresh": ref[(i, w)]}
+            ev = {"site": site, "variant": f"sibling inputs: {variant} [{w}: {order}]", "cache": False, "before": before[w], "after1": after1[w], "after2": after2[w],
+                  "out": {k: {"kind": v["kind"], "shape": v["shape"]} for k, v in out.items()},
+                  "dist": {k: dec_enc(min(distance(out["first"], v), HUGE)) for k, v in out.items() if k != "first"}}
+            info = {"outcomes": {k: v["text"] for k, v in out.items()}, "distances": {k: distance(out["first"], v) for k, v in out.items() if k != "first"},
+                    "peek": {}, "fresh_means": "the same call in a fresh Python process in which the sibling input (same length and end points, other interior) was analysed first"}
+            recs.append((ev, info))
+    return recs
+
+
 def check_model(run, tier, seed):
     """TLC: spec/Pure.tla exhaustively (must hold), and with each named hazard switched on (must be refuted)."""
     res = tlc.must_pass("PureMC", env={"PURE_DEFECT": "none"}, timeout=600, workers=4)
@@ -1374,7 +1541,9 @@ def run_breadth(run, tier, seed):
     scratch = tlc.scratch("purity-")
     events, infos, cs = [], [], []
     broken = None
+    child = None
     try:
+        child, child_out = start_child(scratch, tier)            # the fresh reference process works beside the recording, too
         fx = Fixtures(scratch)
         fx.prepare_db()
         todo = cases(fx, tier, seed) + thermo_cases(tier, seed)
@@ -1397,7 +1566,14 @@ def run_breadth(run, tier, seed):
                 events.append(ev)
                 infos.append(info)
                 cs.append(case if ev["site"] == case.site else Case(ev["site"], ev["variant"], None, None, cache=False))
+        if not broken:
+            for ev, info in record_pairs(fx, tier, child, child_out):
+                events.append(ev)
+                infos.append(info)
+                cs.append(Case(ev["site"], ev["variant"], None, None, cache=False))
     finally:
+        if child is not None and child.poll() is None:
+            child.kill()
         clear_hidden()
         shutil.rmtree(scratch, ignore_errors=True)
     t_rec = time.time() - t0
